@@ -242,7 +242,14 @@ const INTS: [i128; 22] = [
     i128::MIN + 1,
 ];
 const BIG_U: [u128; 3] = [i128::MAX as u128 + 1, u128::MAX, u128::MAX - 1];
-const STRS: [&str; 12] = ["", "a", "ab", "abc", "b", "é", "ée", "1", "true", "a b", "\u{10348}", "z"];
+/// includes texts that differ only by trailing NUL characters, at lengths around the 21 bytes an
+/// inline string holds (20, 21, 22) and one long control
+const STRS: [&str; 24] = [
+    "", "a", "ab", "abc", "b", "é", "ée", "1", "true", "a b", "\u{10348}", "z",
+    "\0", "\0\0", "a\0", "ab\0", "ab\0\0", "é\0",
+    "abcdefghij0123456789", "abcdefghij0123456789\0", "abcdefghij0123456789_", "abcdefghij0123456789_\0",
+    "abcdefghij0123456789_long_control", "abcdefghij0123456789_long_control\0",
+];
 
 /// every encoding that can hold the integer `n`
 fn int_encodings(n: i128) -> Vec<Value> {
@@ -422,7 +429,9 @@ fn mutate(rng: &mut Rng, v: &Value) -> Value {
                 0 => {
                     if v.is_safe() { Value::normal_string(s) } else { Value::safe_string(s) }
                 }
-                1 => Value::normal_string(&format!("{s}a")),
+                1 => {
+                    if rng.chance(1, 2) { Value::normal_string(&format!("{s}\0")) } else { Value::normal_string(&format!("{s}a")) }
+                }
                 _ => gen_str(rng),
             }
         }
